@@ -66,7 +66,9 @@ class Pipe:
         identifier = object()
         throughput = throughput if throughput is not None else self.throughput
         self._add_subscriber(identifier, throughput)
-        while transferred < total:
+        # always wait for at least one window: even a zero-volume transfer
+        # must let other activities run
+        while True:
             window_start = time.now
             window_throughput = throughput * self._throughput_scale
             # Try to delay until we have transferred everything.
@@ -82,6 +84,8 @@ class Pipe:
                 transferred = total
             window_end = time.now
             transferred += (window_end - window_start) * window_throughput
+            if not transferred < total:
+                break
         self._del_subscriber(identifier)
 
     def _add_subscriber(self, identifier, throughput):
